@@ -33,6 +33,7 @@ func simotCase(t *rapid.T, name string, g group.Group) {
 	sub := "simot/" + name
 	key := func(k string) string { return "C16/simot/" + name + "/" + k }
 	vlib.Eval(sub)
+	defer reportOperands(t, key("operand-changed"))
 	choice := rapid.IntRange(0, 1).Draw(t, "choice")
 	var n int
 	if rapid.Bool().Draw(t, "edgeLen") {
@@ -73,9 +74,15 @@ func simotCase(t *rapid.T, name string, g group.Group) {
 	var err3 error
 	if pn, st := vlib.Catch(func() {
 		A := sender.InitSender(g, append([]byte{}, m0...), append([]byte{}, m1...), index)
+		sn := new(opSnap).elem("A", A)
 		B := receiver.Round1Receiver(g, choice, index, A)
+		noteOperands(sn, "Round1Receiver")
+		sn = new(opSnap).elem("B", B)
 		e0, e1 = sender.Round2Sender(B)
+		noteOperands(sn, "Round2Sender")
+		sn = new(opSnap).bytes("e0", e0).bytes("e1", e1)
 		err3 = receiver.Round3Receiver(e0, e1, choice)
+		noteOperands(sn, "Round3Receiver")
 	}); pn != nil {
 		vlib.Report(t, key("panic/"+vlib.PanicClass(pn)), fmt.Sprintf("%s: %v\n%s", desc, pn, st))
 		return
